@@ -270,6 +270,8 @@ def r6(ctx):
 
 
 def run(ctx):
+    from . import C15
+    C15.r1(ctx)   # connect allocates its local port through assign_ephemeral_port: an in-use port makes new_stream panic
     r1(ctx)
     r2(ctx)
     r3(ctx)
